@@ -92,7 +92,7 @@ def _apply(points, R, s, T):
 def _placement(rng, X, h):
     """scale s and translation T for a unit-ish world of extent X and smallest altitude h such that
     afterwards max|coord| <= 1e4 and max|coord| / altitude <= 1e5 (conditioning of the barycentric test)"""
-    s = 10.0 ** rng.choice([-2, -1, 0, 0, 0, 1, 2, 3])
+    s = 10.0 ** rng.choice([-5, -4, -2, -1, 0, 0, 0, 1, 2, 3])  # down to edge lengths ~1e-5: areas ~1e-10 are areas all the same
     while s * X > 5000.0:
         s /= 10.0
     tmax = min(5000.0, 1e5 * s * h - s * X) if h is not None else 5000.0
@@ -103,7 +103,19 @@ def _placement(rng, X, h):
 
 
 def gen_polyline(rng):
-    kind = rng.wchoice(["chain", "loop", "star", "tree", "multi", "single"], [4, 3, 2, 2, 3, 1])
+    kind = rng.wchoice(["chain", "loop", "star", "tree", "multi", "single", "regular"], [4, 3, 2, 2, 3, 1, 2])
+    if kind == "regular":
+        # edges of exactly equal length (a lattice path / the unit square): n * length / total is then an exact integer for many n
+        if rng.chance(0.5):
+            pts = [[0.0, 0.0, 0.0], [1.0, 0.0, 0.0], [1.0, 1.0, 0.0], [0.0, 1.0, 0.0]]
+            edges = [[0, 1], [1, 2], [2, 3], [3, 0]]
+        else:
+            m = rng.randint(2, 6)
+            pts = [[float(i), 0.0, 0.0] for i in range(m + 1)]
+            edges = [[i, i + 1] for i in range(m)]
+        k = rng.choice([1.0, 2.0, 0.5, 4.0])
+        pts = [[k * c for c in p] for p in pts]
+        return {"points": pts, "edges": edges, "kind": kind}
 
     def part(k, base):
         n = {"single": 2, "chain": rng.randint(3, 9), "loop": rng.randint(3, 9), "star": rng.randint(4, 8), "tree": rng.randint(4, 10)}[k]
@@ -275,7 +287,7 @@ class C19(Sim):
     FAULT_KINDS = ["prng_handover", "reject"]
     PROBES = ["radius<1", "radius>1", "grid_nonperfect_power", "grid_perfect_power", "box_dim>=4", "point_cloud_return",
               "normals_requested", "single_edge_polyline", "single_face_surface", "multi_component_polyline", "n1!=n2", "n1==n2",
-              "chi2_test_run", "chi2_polyline", "chi2_surface", "ctrl_point_replaced", "t_out_of_range", "t_endpoint", "degree0", "patch_nonsquare_net",
+              "chi2_test_run", "chi2_polyline", "chi2_surface", "caller_edits_returned_value", "ctrl_point_replaced", "t_out_of_range", "t_endpoint", "degree0", "patch_nonsquare_net",
               "shared_stream_run", "large_centre", "measured_then_deformed", "integer_control_net", "zero_area_face"]
     QUICK_RUNS = 3000
     THOROUGH_RUNS = 300000
@@ -473,7 +485,11 @@ class C19(Sim):
                 n = max(1, min(k ** d + r.choice([0, 0, 1, -1]), 2000, MAX_DRAWS - self.draws))
             return {"c": c, "op": op, "box": b, "n": n, "mode": mode, "pc": d <= 3 and r.chance(0.25)}
         if op == "polyline":
-            return {"c": c, "op": op, "w": r.below(len(w["polylines"])), "n": n, "pc": r.chance(0.25)}
+            wi = r.below(len(w["polylines"]))
+            ne = len(w["polylines"][wi]["edges"])
+            if r.chance(0.3):
+                n = max(1, min(ne * r.randint(1, 25), 2000, MAX_DRAWS - self.draws))  # a multiple of the number of edges
+            return {"c": c, "op": op, "w": wi, "n": n, "pc": r.chance(0.25)}
         wi = r.below(len(w["surfaces"]))
         return {"c": c, "op": "surface", "w": wi, "n": n, "pc": r.chance(0.35), "normals": r.chance(0.5) and not w["surfaces"][wi].get("degenerate")}
 
@@ -489,6 +505,12 @@ class C19(Sim):
         return r.choice([-1e-9, 1.0 + 1e-9, -1.0, 2.0, -0.5, 1.5, 1e300, -1e300, "inf", "-inf", 1.0 + 1e-6, -1e-6, 17.0])
 
     def _bezier_event(self, c, r):
+        ev = self._bezier_event_inner(c, r)
+        if ev is not None and ev["op"] in BEZIER_OPS and r.chance(0.3):
+            ev["scribble"] = True  # afterwards the caller changes the returned vector / exported vertices in place
+        return ev
+
+    def _bezier_event_inner(self, c, r):
         op = r.choice(self.cfg["bops"])
         w = self.cfg["world"]
         if self.cfg.get("ctrl_edits") and r.chance(0.2):
@@ -903,6 +925,7 @@ class C19(Sim):
         if float(t) in (0.0, 1.0):
             self.probes["t_endpoint"] += 1
         out = call(self.curves[ev["k"]].evaluate, t)
+        self._returned.append(out)
         what = "BezierCurve(%r).evaluate(%r)" % (P, float(t))
         if not out.ok:
             self.exc_violation("bernstein", "curve_eval", out, ac, what + " raised for t in [0,1]")
@@ -920,6 +943,7 @@ class C19(Sim):
         for t, cp in ((0.0, P[0]), (1.0, P[-1]), (np.float64(1.0), P[-1]), (0, P[0]), (1, P[-1])):
             self.probes["t_endpoint"] += 1
             out = call(self.curves[ev["k"]].evaluate, t)
+            self._returned.append(out)
             what = "BezierCurve(%r).evaluate(%r)" % (P, t)
             if not out.ok:
                 self.exc_violation("end-interpolation", "curve_ends", out, ac, what + " raised at an end parameter")
@@ -959,6 +983,7 @@ class C19(Sim):
         u, v = self._t(ev["u"], ev["tform"]), self._t(ev["v"], ev["tform"])
         ac = self._patch_ac(P)
         out = call(self.patches[k].evaluate, u, v)
+        self._returned.append(out)
         what = "BezierPatch(%r).evaluate(%r, %r)" % (P, float(u), float(v))
         if not out.ok:
             self.exc_violation("bernstein", "patch_eval", out, ac, what + " raised for (u,v) in [0,1]^2")
@@ -978,6 +1003,7 @@ class C19(Sim):
             for v in (0.0, 1.0):
                 self.probes["t_endpoint"] += 1
                 out = call(self.patches[k].evaluate, u, v)
+                self._returned.append(out)
                 what = "BezierPatch(%r).evaluate(%r, %r)" % (P, u, v)
                 if not out.ok:
                     self.exc_violation("end-interpolation", "patch_corners", out, ac, what + " raised at a corner parameter")
@@ -1007,6 +1033,7 @@ class C19(Sim):
         P = self.P_curves[ev["k"]]
         t = self._t(ev["t"], ev["tform"])
         out = call(self.curves[ev["k"]].evaluate, t)
+        self._returned.append(out)
         self.judged += 1
         return self._expect_reject(out, "curve_reject", "BezierCurve.evaluate", "t<0" if t < 0 else "t>1",
                                    "BezierCurve(<%d points>).evaluate(%r)" % (len(P), float(t)))
@@ -1016,6 +1043,7 @@ class C19(Sim):
         u, v = self._t(ev["u"], ev["tform"]), self._t(ev["v"], ev["tform"])
         bu, bv = not (0.0 <= u <= 1.0), not (0.0 <= v <= 1.0)
         out = call(self.patches[ev["k"]].evaluate, u, v)
+        self._returned.append(out)
         self.judged += 1
         return self._expect_reject(out, "patch_reject", "BezierPatch.evaluate", ("u" if bu else "") + ("v" if bv else "") + " out of range",
                                    "BezierPatch(<%dx%d net>).evaluate(%r, %r)" % (len(P), len(P[0]), float(u), float(v)))
@@ -1041,6 +1069,7 @@ class C19(Sim):
         ac = "dim=%d" % dim
         site = "BezierCurve.as_polyline"
         out = call(self.curves[k].as_polyline, n)
+        self._returned.append(out)
         what = "BezierCurve(%r).as_polyline(%d)" % (P, n)
         if not out.ok:
             self.exc_violation("export-count", "as_polyline", out, ac, what + " raised")
@@ -1086,6 +1115,7 @@ class C19(Sim):
         self.probes["n1==n2" if n1 == n2 else "n1!=n2"] += 1
         site = "BezierPatch.as_surface"
         out = call(self.patches[k].as_surface, n1, n2)
+        self._returned.append(out)
         what = "BezierPatch(<%dx%d net>).as_surface(%d, %d)" % (len(P), len(P[0]), n1, n2)
         if not out.ok:
             self.exc_violation("export-count", "as_surface", out, ac, what + " raised")
@@ -1174,7 +1204,33 @@ class C19(Sim):
         self.opkinds.add(op)
         if ev["c"] == "noise":
             return self._do_noise(ev)
-        return getattr(self, "_do_" + op)(ev)
+        self._returned = []
+        res = getattr(self, "_do_" + op)(ev)
+        if ev.get("scribble") and self._returned:
+            self._scribble()
+        return res
+
+    def _scribble(self):
+        """the caller changes, in place, what an evaluation / export handed back (its own data now): the curves and patches must not follow"""
+        done = False
+        for out in self._returned:
+            if not out.ok:
+                continue
+            v = out.value
+            try:
+                if isinstance(v, np.ndarray):
+                    v += 3.25
+                    done = True
+                elif hasattr(v, "vertices"):
+                    for i in range(len(v.vertices)):
+                        q = v.vertices[i]
+                        if isinstance(q, np.ndarray):
+                            q += 3.25
+                            done = True
+            except (TypeError, ValueError):  # (integer-typed vectors refuse the in-place float addition)
+                pass
+        if done:
+            self.probes["caller_edits_returned_value"] += 1
 
     def finish(self):
         """history oracle: 'over many draws the share of samples per edge/face follows length/area' - at most one
